@@ -25,12 +25,15 @@ use std::sync::{Arc, Mutex};
 leptos_i18n::declare_locales! {
     interpolate_display,
     default: "en",
-    locales: ["en", "fr", "fr-CA", "de", "pt-BR"],
+    locales: ["en", "fr", "fr-CA", "de", "pt-BR", "ru", "ar", "pl"],
     en: { hello: "hello@0", hello_n: "hello {{ n }}@0", sub: { inner: "inner@0", inner_n: "inner {{ n }}@0", deep: { leaf: "leaf@0", leaf_n: "leaf {{ n }}@0" } } },
     fr: { hello: "hello@1", hello_n: "hello {{ n }}@1", sub: { inner: "inner@1", inner_n: "inner {{ n }}@1", deep: { leaf: "leaf@1", leaf_n: "leaf {{ n }}@1" } } },
     fr_CA: { hello: "hello@2", hello_n: "hello {{ n }}@2", sub: { inner: "inner@2", inner_n: "inner {{ n }}@2", deep: { leaf: "leaf@2", leaf_n: "leaf {{ n }}@2" } } },
     de: { hello: "hello@3", hello_n: "hello {{ n }}@3", sub: { inner: "inner@3", inner_n: "inner {{ n }}@3", deep: { leaf: "leaf@3", leaf_n: "leaf {{ n }}@3" } } },
     pt_BR: { hello: "hello@4", hello_n: "hello {{ n }}@4", sub: { inner: "inner@4", inner_n: "inner {{ n }}@4", deep: { leaf: "leaf@4", leaf_n: "leaf {{ n }}@4" } } },
+    ru: { hello: "hello@5", hello_n: "hello {{ n }}@5", sub: { inner: "inner@5", inner_n: "inner {{ n }}@5", deep: { leaf: "leaf@5", leaf_n: "leaf {{ n }}@5" } } },
+    ar: { hello: "hello@6", hello_n: "hello {{ n }}@6", sub: { inner: "inner@6", inner_n: "inner {{ n }}@6", deep: { leaf: "leaf@6", leaf_n: "leaf {{ n }}@6" } } },
+    pl: { hello: "hello@7", hello_n: "hello {{ n }}@7", sub: { inner: "inner@7", inner_n: "inner {{ n }}@7", deep: { leaf: "leaf@7", leaf_n: "leaf {{ n }}@7" } } },
 }
 use i18n::*;
 
@@ -217,7 +220,131 @@ struct Handle {
     /// creates one accessor of this handle, flavour = (macro, kind of the first macro argument, with interpolation arguments);
     /// the result renders it (a `t!`-like view closure is created once here and called + rendered to html on every render,
     /// a `t_string!`/`t_display!`-like call is re-evaluated on every render)
-    accessor: Box<dyn Fn(usize, usize, usize) -> Option<Render>>,
+    /// the fourth argument is the payload of the plural / format macros (count index; formatter family * 4 + value index)
+    accessor: Box<dyn Fn(usize, usize, usize, usize) -> Option<Render>>,
+}
+
+fn html(v: impl IntoView) -> String {
+    v.into_view().to_html()
+}
+
+// ---- payloads of the plural and format accessors, and the fixed-locale oracle tables (td_plural!, td_format!, ..)
+const COUNTS: [u64; 8] = [0, 1, 2, 3, 5, 11, 21, 100];
+const FORMS: [&str; 6] = ["zero", "one", "two", "few", "many", "other"];
+const NUMS: [f64; 3] = [2000.5, 1234567.891, 12.0];
+const DATES: [(i32, u8, u8); 2] = [(2024, 3, 5), (1999, 12, 31)];
+const LISTS: [&[&str]; 2] = [&["a", "b", "c"], &["x", "y"]];
+/// number of values of each formatter family (0 number, 1 date, 2 list)
+const FAMILY_VALUES: [usize; 3] = [3, 2, 2];
+
+type IcuDate = leptos_i18n::reexports::icu::calendar::Date<leptos_i18n::reexports::icu::calendar::AnyCalendar>;
+fn num_of(i: usize) -> f64 {
+    NUMS[i % NUMS.len()]
+}
+fn date_of(i: usize) -> IcuDate {
+    let (y, m, d) = DATES[i % DATES.len()];
+    leptos_i18n::reexports::icu::calendar::Date::try_new_iso_date(y, m, d).unwrap().to_any()
+}
+fn list_of(i: usize) -> Vec<&'static str> {
+    LISTS[i % LISTS.len()].to_vec()
+}
+
+/// `$mac!(<first argument tokens>, count = .., every form => its name)`
+macro_rules! pl {
+    ($mac:ident, $n:ident; $($e:tt)+) => {
+        $mac!($($e)+, count = move || $n, zero => "zero", one => "one", two => "two", few => "few", many => "many", _ => "other")
+    };
+}
+/// `$mac!(<first argument tokens>, <value>, formatter: ..)`, one formatter per family; view flavours take the value as a closure
+macro_rules! fm {
+    (view, 0, $mac:ident, $v:ident; $($e:tt)+) => { $mac!($($e)+, move || num_of($v), formatter: number) };
+    (view, 1, $mac:ident, $v:ident; $($e:tt)+) => { $mac!($($e)+, move || date_of($v), formatter: date(date_length: long)) };
+    (view, 2, $mac:ident, $v:ident; $($e:tt)+) => { $mac!($($e)+, move || list_of($v), formatter: list(list_type: and; list_style: wide)) };
+    (string, 0, $mac:ident, $v:ident; $($e:tt)+) => { $mac!($($e)+, num_of($v), formatter: number) };
+    (string, 1, $mac:ident, $v:ident; $($e:tt)+) => { $mac!($($e)+, &date_of($v), formatter: date(date_length: long)) };
+    (string, 2, $mac:ident, $v:ident; $($e:tt)+) => { $mac!($($e)+, list_of($v), formatter: list(list_type: and; list_style: wide)) };
+}
+
+struct Tables {
+    /// [rule: 0 cardinal, 1 ordinal][locale][count index] -> form name, by td_plural! / td_plural_ordinal!
+    plural: Vec<Vec<Vec<String>>>,
+    /// [family][value][locale] -> html of the view of td_format!
+    fmt_view: Vec<Vec<Vec<String>>>,
+    /// the same by td_format_string! (td_format_display! is asserted to give the same text)
+    fmt_str: Vec<Vec<Vec<String>>>,
+}
+
+fn tables() -> &'static Tables {
+    static T: std::sync::OnceLock<Tables> = std::sync::OnceLock::new();
+    T.get_or_init(|| {
+        let locs = Locale::get_all();
+        let mut plural = vec![vec![], vec![]];
+        for l in locs.iter().copied() {
+            plural[0].push(COUNTS.iter().copied().map(|n| pl!(td_plural, n; l).to_string()).collect::<Vec<_>>());
+            plural[1].push(COUNTS.iter().copied().map(|n| pl!(td_plural_ordinal, n; l).to_string()).collect::<Vec<_>>());
+        }
+        let (mut fmt_view, mut fmt_str) = (vec![], vec![]);
+        macro_rules! family {
+            ($f:tt) => {{
+                let (mut fv, mut fs) = (vec![], vec![]);
+                for v in 0..FAMILY_VALUES[$f] {
+                    let (mut rv, mut rs) = (vec![], vec![]);
+                    for l in locs.iter().copied() {
+                        let view = fm!(view, $f, td_format, v; l);
+                        rv.push(html(view()));
+                        let s = fm!(string, $f, td_format_string, v; l).to_string();
+                        let d = fm!(string, $f, td_format_display, v; l).to_string();
+                        rs.push(if s == d { s } else { format!("STRING/DISPLAY DIFFER {} / {}", s, d) });
+                    }
+                    fv.push(rv);
+                    fs.push(rs);
+                }
+                fmt_view.push(fv);
+                fmt_str.push(fs);
+            }};
+        }
+        family!(0);
+        family!(1);
+        family!(2);
+        Tables { plural, fmt_view, fmt_str }
+    })
+}
+
+/// one line: `P<rule>:<locale>:<count index>=<form index>`, `V<family>:<value>:<locale>=<hex html>`, `S..=<hex text>`
+fn tables_line() -> String {
+    let t = tables();
+    let mut out = vec![];
+    for (r, tr) in t.plural.iter().enumerate() {
+        for (l, tl) in tr.iter().enumerate() {
+            for (c, f) in tl.iter().enumerate() {
+                out.push(format!("P{}:{}:{}={}", r, l, c, FORMS.iter().position(|x| x == f).map(|x| x.to_string()).unwrap_or("9".into())));
+            }
+        }
+    }
+    for (tag, tb) in [("V", &t.fmt_view), ("S", &t.fmt_str)] {
+        for (f, tf) in tb.iter().enumerate() {
+            for (v, tv) in tf.iter().enumerate() {
+                for (l, s) in tv.iter().enumerate() {
+                    out.push(format!("{}{}:{}:{}={}", tag, f, v, l, hex(s)));
+                }
+            }
+        }
+    }
+    format!("T {}", out.join(" "))
+}
+
+/// what a rendering is printed as: one digit
+///   - `t!` family: the locale index written at the end of the translation;
+///   - plural macros: the index of the form name;
+///   - format macros: the least locale index whose fixed-locale rendering of the same value is this text (9: none)
+fn digit_of(m: usize, p: usize, s: &str) -> String {
+    let class = |row: &Vec<String>| row.iter().position(|x| x == s).map(|x| x.to_string()).unwrap_or("9".into());
+    match m {
+        0..=8 => locale_of_text(s),
+        9..=12 => FORMS.iter().position(|x| *x == s).map(|x| x.to_string()).unwrap_or("9".into()),
+        13 | 14 => class(&tables().fmt_view[p / 4][p % 4]),
+        _ => class(&tables().fmt_str[p / 4][p % 4]),
+    }
 }
 
 /// view flavours: the closure the macro returns is created now, called at every rendering;
@@ -230,6 +357,39 @@ macro_rules! wrap {
     (string, $call:expr) => {
         Some(Box::new(move || $call.to_string()) as Render)
     };
+    // `t_plural!`: the closure the macro returns is created now, called at every rendering
+    (closure, $call:expr) => {{
+        let v = $call;
+        Some(Box::new(move || v().to_string()) as Render)
+    }};
+    // `t_format!` / `tu_format!`: the same, the result is a view
+    (fview, $call:expr) => {{
+        let v = $call;
+        Some(Box::new(move || html(v())) as Render)
+    }};
+}
+
+/// the macros over a payload (`pl!` plural macros, `fm!` format macros) for every kind of context expression (as `ctx_arms`)
+macro_rules! payload_arms {
+    ($out:ident, $e:expr, $c:ident, [$($pre:tt)*]; $k:ident $kn:ident [$($full:tt)+] [$($fulln:tt)+] [$($sc:tt)+] $sk:ident $skn:ident [$($us:tt)+] $uk:ident $ukn:ident) => {{
+        let holder = Holder { i18n: $c };
+        match $e {
+            0 => wrap!($out, $($pre)*; $c)),
+            1 => wrap!($out, $($pre)*; use_i18n())),
+            2 => wrap!($out, $($pre)*; $($sc)+)),
+            3 => wrap!($out, $($pre)*; $($us)+)),
+            4 => wrap!($out, $($pre)*; holder.i18n)),
+            5 => {
+                let r: &'static _ = Box::leak(Box::new($c));
+                wrap!($out, $($pre)*; *r))
+            }
+            6 => wrap!($out, $($pre)*; { $c })),
+            7 => wrap!($out, $($pre)*; ($c))),
+            8 => wrap!($out, $($pre)*; holder.get())),
+            9 => wrap!($out, $($pre)*; idf($c))),
+            _ => None,
+        }
+    }};
 }
 
 /// the accessor macros that take a context (`t!`, `tu!`, `t_string!`, `tu_string!`, `t_display!`, `tu_display!`), for
